@@ -1,6 +1,7 @@
 package streams
 
 import (
+	"net/url"
 	"context"
 	"testing"
 
@@ -27,5 +28,32 @@ func TestKnownFinding_F16(t *testing.T) {
 	got := r.Resolve(context.Background(), m)
 	if len(calls) != 1 || got != ErrUnhandledType {
 		t.Fatalf("callbacks invoked: %v, returned error: %v (want exactly [Note] and the callback's own error)", calls, got)
+	}
+}
+
+// F10 (C18): Swap exchanges two elements of a non-functional property but leaves each element's own
+// position (myIdx) as it was, so iteration with Next() from a swapped element goes wrong.
+func TestKnownFinding_F10(t *testing.T) {
+	p := NewActivityStreamsToProperty()
+	for _, s := range []string{"https://example.com/a", "https://example.com/b", "https://example.com/c"} {
+		u, _ := url.Parse(s)
+		p.AppendIRI(u)
+	}
+	p.Swap(0, 2)
+	var got []string
+	for it := p.Begin(); it != p.End(); it = it.Next() {
+		got = append(got, it.GetIRI().String())
+		if len(got) > 10 {
+			break
+		}
+	}
+	want := []string{"https://example.com/c", "https://example.com/b", "https://example.com/a"}
+	if len(got) != len(want) {
+		t.Fatalf("after Swap(0,2) forward iteration visits %v, want %v", got, want)
+	}
+	for i := range want {
+		if got[i] != want[i] {
+			t.Fatalf("after Swap(0,2) forward iteration visits %v, want %v", got, want)
+		}
 	}
 }
